@@ -253,7 +253,11 @@ func (cs *caseState) fail(pl *plan, key string, format string, args ...any) {
 			return
 		}
 		if pl.earlySent.Load() {
-			key = "tcpmux-early-data-lost" // whatever the symptom: this connection's payload left together with its CONNECT request
+			switch key {
+			case "delivery-stalled", "unprompted-close", "stream-altered-up", "orderly-close-truncated-up":
+				// symptoms of missing first bytes on a connection whose payload left together with its CONNECT request
+				key = "tcpmux-early-data-lost"
+			}
 		}
 		args = append(args, pl.describe())
 		format += " [%s]"
